@@ -263,6 +263,14 @@ def build(case):
             doc.lines.append((2, [(rcall, "rsite%d" % level)], None))
             doc.add(2, "EXIT SUB" if kind == "sub" else "EXIT FUNCTION")
             doc.add(1, "END IF")
+        if mods[level] == "recback":
+            # the third activation returns through the one call site, the fault then happens in the second, which the first
+            # entered through that same call site: the site is still active once
+            doc.add(1, "IF N% < 200 THEN")
+            rcall = ("%s N%% + 100" % name) if kind == "sub" else ("R%% = %s%%(N%% + 100)" % name)
+            doc.lines.append((2, [(rcall, "rsite%d" % level)], None))
+            doc.add(1, "END IF")
+            doc.add(1, "IF N% > 199 THEN EXIT SUB" if kind == "sub" else "IF N% > 199 THEN EXIT FUNCTION")
         scope_body(level + 1, doc, 1)
         doc.add(0, "END SUB" if kind == "sub" else "END FUNCTION")
     # helper procedures used by some faults
@@ -320,5 +328,7 @@ def emit(doc, case):
     for l in reversed(range(len(case["chain"]))):
         if mods[l] == "rec":
             sites += [marks["rsite%d" % l], marks["rsite%d" % l]]
+        if mods[l] == "recback":
+            sites += [marks["rsite%d" % l]]
         sites.append(marks["site%d" % l])
     return {"text": text, "stmt": marks["stmt"], "term": marks["term"], "sites": sites}
